@@ -624,4 +624,113 @@ Proof.
   apply inv_data. apply writes_in_bind; [apply wi_vertex_id|]. intros ?. cbn. intros; repeat split; exact I.
 Qed.
 
+(** ** insert_vertex_on_edge (one vertex, the two spare darts given as a pair) *)
+Definition Te (e : N) (w : store) : Prop := beta w 1 e = beta w0 1 e /\ beta w 2 e = beta w0 2 e.
+Lemma topo_Te e : topo (Te e).
+Proof. intros w w' [A B] [Hb _]. unfold Te in *. rewrite !Hb. auto. Qed.
+Definition Tf (d : N) (w : store) : Prop := beta w 2 d = 0.
+Lemma topo_Tf d : topo (Tf d).
+Proof. intros w w' A [Hb _]. unfold Tf in *. rewrite Hb. exact A. Qed.
+Lemma topo_and (P Q : store -> Prop) : topo P -> topo Q -> topo (fun w => P w /\ Q w).
+Proof. intros HP HQ w w' [A B] Ht. split; [eapply HP|eapply HQ]; eauto. Qed.
+Lemma topo_imp (phi : Prop) (Q : store -> Prop) : topo Q -> topo (fun w => phi -> Q w).
+Proof. intros HQ w w' A Ht Hp. eapply HQ; eauto. Qed.
+
+Lemma triple_is_free (T : store -> Prop) d :
+  triple E (fun w => Inv w /\ T w) (is_free_atomic d) (fun b w => Inv w /\ T w /\ (b = true -> Tf d w)) anyf.
+Proof.
+  intros c w cnt o w' cnt' [A B] Hr. apply run_is_free in Hr as (-> & -> & Hf).
+  destruct o as [b|e1| |q]; try exact I. split; [exact A|split; [exact B|]]. intros ->. apply Hf. reflexivity.
+Qed.
+
+Theorem insert_vertex_wf ks e nd1 nd2 t c cnt w' cnt' :
+  wf2 n w0 -> ok e -> ok nd1 -> (beta w0 2 e <> 0 -> ok nd2) ->
+  ~ (beta w0 1 e = 0 /\ beta w0 2 e = 0) ->
+  run E (insert_vertex_on_edge n ks e nd1 nd2 t) c w0 cnt = (Done tt, w', cnt') -> wf2 n w'.
+Proof.
+  intros W0 He H1 H2 Hends Hr.
+  assert (HT : triple E (fun w => Inv w /\ Te e w) (insert_vertex_on_edge n ks e nd1 nd2 t) (fun _ w => Inv w) anyf).
+  2:{ pose proof (HT c w0 cnt _ _ _ (conj (conj W0 (fun d => eq_refl)) (conj eq_refl eq_refl)) Hr) as Hq. apply Hq. }
+  clear Hr. unfold insert_vertex_on_edge. cbv zeta.
+  destruct (match t with Some t0 => negb (sc_in_unit t0) | None => false end); [tfail|].
+  apply (triple_rd_T 2 e _ _ (fun x => x = beta w0 2 e)); [lia|exact He|intros w _ [_ A]; exact A|]. intros d2a _ Ed2a.
+  (* the first spare dart is checked free *)
+  eapply triple_bind with (Qm := fun b w => Inv w /\ (Te e w /\ (b = true -> Tf nd1 w))).
+  { destruct (nd1 =? 0).
+    - apply triple_ret'. intros w [A B]. split; [exact A|split; [exact B|discriminate]].
+    - eapply triple_conseq; [| | |apply (triple_is_free (Te e) nd1)]; auto. }
+  intros f1. destruct f1; cbn [negb]; [|tfail].
+  set (T1 := fun w => Te e w /\ Tf nd1 w).
+  assert (HtT1 : topo T1) by (apply topo_and; [apply topo_Te|apply topo_Tf]).
+  eapply triple_conseq with (P := fun w => Inv w /\ T1 w) (Qd := fun _ w => Inv w) (Qf := anyf);
+    [intros w (A & B & C); split; [exact A|split; [exact B|apply C; reflexivity]]|auto|auto|].
+  (* the second one too when the edge has two darts *)
+  set (T2 := fun w => T1 w /\ (d2a <> 0 -> Tf nd2 w)).
+  assert (HtT2 : topo T2) by (apply topo_and; [exact HtT1|apply topo_imp, topo_Tf]).
+  eapply triple_bind with (Qm := fun b w => Inv w /\ (b = true -> T2 w)).
+  { destruct (N.eqb_spec d2a 0) as [Z|NZ].
+    - apply triple_ret'. intros w [A B]. split; [exact A|]. intros _. split; [exact B|]. intros C; contradiction.
+    - destruct (nd2 =? 0).
+      + apply triple_ret'. intros w [A B]. split; [exact A|discriminate].
+      + eapply triple_conseq; [| | |apply (triple_is_free T1 nd2)]; auto.
+        intros b w (A & B & C). split; [exact A|]. intros Hb. split; [exact B|]. intros _. apply C, Hb. }
+  intros f2. destruct f2; cbn [negb]; [|tfail].
+  eapply triple_conseq with (P := fun w => Inv w /\ T2 w) (Qd := fun _ w => Inv w) (Qf := anyf);
+    [intros w (A & B); split; [exact A|apply B; reflexivity]|auto|auto|].
+  apply (triple_rd_T 2 e _ _ (fun x => x = beta w0 2 e)); [lia|exact He|intros w _ [[[_ A] _] _]; exact A|]. intros d2 Hd2 Ed2.
+  assert (Ed : d2a = d2) by congruence. subst d2a.
+  destruct (N.eqb_spec d2 0) as [Z2|NZ2].
+  - (* one-dart edge *)
+    apply (triple_rd_T 1 e _ _ (fun x => x = beta w0 1 e)); [lia|exact He|intros w _ [[[A _] _] _]; exact A|]. intros b1 Hb1 Eb1.
+    assert (Nb1 : b1 <> 0) by (intros Z; apply Hends; split; congruence).
+    destruct Hb1 as [Z|[Hokb1 _]]; [contradiction|].
+    tdatT T2. tdatT T2. tdatT T2. tdatT T2.
+    match goal with |- triple _ _ (match ?a with _ => _ end) _ _ => destruct a as [v1|]; [|tfail] end.
+    match goal with |- triple _ _ (match ?a with _ => _ end) _ _ => destruct a as [v2|]; [|tfail] end.
+    eapply triple_conseq with (P := Inv) (Qd := fun _ => Inv) (Qf := anyf); [intros w [A _]; exact A|auto|auto|].
+    eapply triple_bind with (Qm := fun _ => Inv).
+    { destruct (negb (b1 =? 0)); [apply inv_one_unlink; exact He|apply triple_ret'; auto]. }
+    intros _.
+    eapply triple_bind with (Qm := fun _ => Inv); [apply inv_one_link; assumption|intros _].
+    eapply triple_bind with (Qm := fun _ => Inv); [apply inv_one_link; assumption|intros _].
+    apply inv_data. apply writes_in_bind; [apply wi_vertex_id|]. intros ?. cbn. intros; repeat split; exact I.
+  - (* two-dart edge *)
+    destruct Hd2 as [Z|[Hokd2 Hd2e]]; [contradiction|]. specialize (Hd2e eq_refl).
+    assert (Hok2 : ok nd2) by (apply H2; congruence).
+    (* the spare darts are 2-free, the edge's darts are not: they are different darts *)
+    apply (triple_pure _ (e <> nd2 /\ d2 <> nd1)).
+    { intros w ([[_ _ _ _ W5 _] _] & ((_ & B2) & F1) & F2). assert (F2' : Tf nd2 w) by (apply F2; congruence). clear F2. unfold Tf in *.
+      pose proof He as (E0 & En & _). assert (Hb : beta w 2 e = d2) by congruence.
+      split.
+      - intros ->. congruence.
+      - intros ->. assert (Hx : beta w 2 e <> 0) by congruence. destruct (W5 e En Hx) as [I2 _]. rewrite Hb in I2. congruence. }
+    intros [Hne2 Hnd1].
+    apply (triple_rd_T 1 e _ _ (fun _ => True)); [lia|exact He|auto|]. intros b1 Hb1 _.
+    apply (triple_rd_T 1 d2 _ _ (fun _ => True)); [lia|exact Hokd2|auto|]. intros b1d2 Hb1d2 _.
+    tdatT T2. tdatT T2. tdatT T2. tdatT T2.
+    match goal with |- triple _ _ (match ?a with _ => _ end) _ _ => destruct a as [v1|]; [|tfail] end.
+    match goal with |- triple _ _ (match ?a with _ => _ end) _ _ => destruct a as [v2|]; [|tfail] end.
+    eapply triple_conseq with (P := Inv) (Qd := fun _ => Inv) (Qf := anyf); [intros w [A _]; exact A|auto|auto|].
+    eapply triple_bind with (Qm := fun _ => Inv).
+    { destruct (negb (b1 =? 0)); [apply inv_one_unlink; exact He|apply triple_ret'; auto]. }
+    intros _.
+    eapply triple_bind with (Qm := fun _ => Inv).
+    { destruct (negb (b1d2 =? 0)); [apply inv_one_unlink; exact Hokd2|apply triple_ret'; auto]. }
+    intros _.
+    eapply triple_bind with (Qm := fun _ => Inv); [apply inv_two_unlink; exact He|intros _].
+    eapply triple_bind with (Qm := fun _ => Inv); [apply inv_one_link; assumption|intros _].
+    eapply triple_bind with (Qm := fun _ => Inv).
+    { destruct (N.eqb_spec b1 0) as [Z|NZ]; cbn [negb]; [apply triple_ret'; auto|].
+      apply inv_one_link; [exact H1|]. destruct Hb1 as [Z|[A _]]; [contradiction|exact A]. }
+    intros _.
+    eapply triple_bind with (Qm := fun _ => Inv); [apply inv_one_link; assumption|intros _].
+    eapply triple_bind with (Qm := fun _ => Inv).
+    { destruct (N.eqb_spec b1d2 0) as [Z|NZ]; cbn [negb]; [apply triple_ret'; auto|].
+      apply inv_one_link; [exact Hok2|]. destruct Hb1d2 as [Z|[A _]]; [contradiction|exact A]. }
+    intros _.
+    eapply triple_bind with (Qm := fun _ => Inv); [apply inv_two_link; assumption|intros _].
+    eapply triple_bind with (Qm := fun _ => Inv); [apply inv_two_link; assumption|intros _].
+    apply inv_data. apply writes_in_bind; [apply wi_vertex_id|]. intros ?. cbn. intros; repeat split; exact I.
+Qed.
+
 End KernWf.
